@@ -38,8 +38,8 @@ def _fn(f):
     return lambda v: ["fn", f, v]
 
 
-def _powc(k):
-    return lambda v: ["bin", "**", v, ["raw", k, "int" if isinstance(k, int) else "float"]]
+def _powc(k, kind=None):
+    return lambda v: ["bin", "**", v, ["raw", k, kind or ("int" if isinstance(k, int) else "float")]]
 
 
 # name -> (node(v), singular value, expectation at the singular coordinate, a regular stand-in value)
@@ -56,6 +56,18 @@ SCALAR_ATOMS = {
     "pow1.5@neg": (_powc(1.5), -0.5, "zero", 1.3),
     "pow2.5@neg": (_powc(2.5), -0.75, "zero", 1.3),
     "sqrt@neg": (_fn("sqrt"), -0.5, "zero", 1.3),
+    # exponents given as NumPy scalars (np.arange exponents of a polynomial basis, float32 data): the same atoms
+    "pow0.5(np.float32)@0": (_powc(0.5, "npf32"), 0.0, "+big", 1.3),
+    "pow-1(np.int64)@0": (_powc(-1, "npi64"), 0.0, "-big", 1.3),
+    "pow0.5(0-d array)@0": (_powc(0.5, "arr0d"), 0.0, "+big", 1.3),
+    "pow1.5(np.float64)@neg": (_powc(1.5, "npf64"), -0.5, "zero", 1.3),
+    # regular at 0: d/dx x**1 = 1, d/dx x**2 = 0 with second derivative 2, d/dx x**3 = 0
+    "pow1(np.int64)@0": (_powc(1, "npi64"), 0.0, "jet", 1.3),
+    "pow2(np.int64)@0": (_powc(2, "npi64"), 0.0, "jet", 1.3),
+    "pow2(0-d array)@0": (_powc(2.0, "arr0d"), 0.0, "jet", 1.3),
+    "pow3(np.float32)@0": (_powc(3.0, "npf32"), 0.0, "jet", 1.3),
+    "pow2(int)@0": (_powc(2), 0.0, "jet", 1.3),
+    "pow1(float)@0": (_powc(1.0), 0.0, "jet", 1.3),
     "recip@0": (lambda v: ["bin", "/", ["raw", 1.0, "float"], v], 0.0, "-big", 1.3),
     "asin@1": (_fn("asin"), 1.0, "+big", 0.4),
     "asin@-1": (_fn("asin"), -1.0, "+big", 0.4),
@@ -203,7 +215,9 @@ def run_item(rec, rng, item):
             node = mk(["var", target])
             terms_v.append((coef, node))
             terms_e.append((coef, node))
-            if sidx:
+            if sidx and expect == "jet":
+                point[target] = shifted[target] = sv  # a regular point of this atom (x**1, x**2 at 0): judged against the jet there
+            elif sidx:
                 point[target], shifted[target] = sv, stand
                 sing[target] = (expect, coef)
             else:
